@@ -171,6 +171,15 @@ func (eng *Engine) lookupTypeByName(name string) types.Type {
 	if t, ok := eng.typeNames[name]; ok {
 		return t
 	}
+	if strings.HasPrefix(name, "[]") {
+		// slice of a nameable type: []byte, []*types.Header
+		if et := eng.lookupTypeByName(name[2:]); et != nil {
+			res := types.NewSlice(et)
+			eng.typeNames[name] = res
+			return res
+		}
+		return nil
+	}
 	ptr := strings.HasPrefix(name, "*")
 	nm := strings.TrimPrefix(name, "*")
 	i := strings.LastIndex(nm, ".")
